@@ -281,6 +281,7 @@ type c14Op struct {
 	Names []string `json:"names,omitempty"`
 	Flag  bool     `json:"flag,omitempty"`
 	Opt   string   `json:"opt,omitempty"` // dependency option / variant
+	Back  int      `json:"back,omitempty"` // histories: the receiver is the project Back steps before the latest one (0 = the latest: a chain; > 0: a branch)
 }
 
 func depOpt(o string) []types.DependencyOption {
@@ -383,6 +384,42 @@ func c14Apply(p *types.Project, op c14Op) (res *types.Project, vis *c14Visited, 
 			return nil
 		}, depOpt(op.Opt)...)
 		return nil, vis, err
+	case "MarshalApply":
+		// the project MarshalYAML / MarshalJSON hand to their encoder: with the option a derivation, without it the receiver itself
+		r := types.VerifApplyMarshallOptions(p, op.Flag)
+		if !op.Flag && r == p {
+			return nil, nil, nil
+		}
+		return r, nil, nil
+	case "MarshalPlain":
+		_, err = p.MarshalYAML()
+		if _, err2 := p.MarshalJSON(); err == nil {
+			err = err2
+		}
+		return nil, nil, err
+	case "Accessors":
+		// the read-only methods: whatever they return, the receiver must be what it was
+		p.ServiceNames()
+		p.DisabledServiceNames()
+		p.VolumeNames()
+		p.NetworkNames()
+		p.SecretNames()
+		p.ConfigNames()
+		p.ServicesWithBuild()
+		p.ServicesWithExtends()
+		p.ServicesWithDependsOn()
+		p.ServicesWithCapabilities()
+		p.AllServices()
+		p.RelativePath("x/y")
+		_, err = p.GetServices(op.Names...)
+		for _, n := range op.Names {
+			if s, e := p.GetService(n); e == nil {
+				p.GetDependentsForService(s)
+				s.GetDependents(p)
+			}
+			p.GetDisabledService(n)
+		}
+		return nil, nil, nil
 	case "MarshalWithSecrets":
 		_, err = p.MarshalYAML(types.WithSecretContent)
 		if _, err2 := p.MarshalJSON(types.WithSecretContent); err == nil {
@@ -417,6 +454,8 @@ func c14Affected(op c14Op, path string) bool {
 		return has(".Services.*.Environment") || has(".Services.*.EnvFiles")
 	case "WithServicesLabelsResolved":
 		return has(".Services.*.Labels") || has(".Services.*.LabelFiles")
+	case "MarshalApply":
+		return has(".Secrets.*.marshallContent")
 	case "WithServicesTransform":
 		switch op.Opt {
 		case "label":
@@ -689,8 +728,13 @@ func c14History(raw json.RawMessage) any {
 	snaps := []any{e.enc(reflect.ValueOf(p0))}
 	lastOp := []string{"build"}
 	for i, op := range a.Ops {
-		recv := chain[len(chain)-1]
-		before := snaps[len(snaps)-1]
+		ri := len(chain) - 1 - op.Back
+		if ri < 0 || op.Back < 0 {
+			ri = 0
+		}
+		recv := chain[ri]
+		before := snaps[ri]
+		// (the other projects of the history are watched too: a step must not change any of them)
 		res, vis, err := c14Apply(recv, op)
 		step := errClass(err)
 		if res == nil && vis == nil {
@@ -705,13 +749,24 @@ func c14History(raw json.RawMessage) any {
 		after := e.enc(reflect.ValueOf(recv))
 		if d := diffPath(before, after, ""); d != "" {
 			add("receiver-mutated:"+op.Op+":"+topField(d), fmt.Sprintf("step %d %s changed its receiver at %s", i, op.Op, d))
-			snaps[len(snaps)-1] = after
+			snaps[ri] = after
 			if i == 0 {
 				out.Step0Mutated = true
 			}
 		}
 		if a.Spec && i == 0 {
 			out.Spec = map[string]any{"before": before, "after": after}
+		}
+		// 1b. nor is any other project of the history (siblings and ancestors of a branching history)
+		for j := range chain {
+			if j == ri {
+				continue
+			}
+			now := e.enc(reflect.ValueOf(chain[j]))
+			if d := diffPath(snaps[j], now, ""); d != "" {
+				add("bystander-mutated:"+op.Op+":"+topField(d), fmt.Sprintf("step %d %s (on project #%d) changed project #%d of the history at %s", i, op.Op, ri, j, d))
+				snaps[j] = now
+			}
 		}
 		if vis != nil {
 			// the visitor's copies: isolated from the receiver and from each other, and deeply equal to the services
@@ -726,9 +781,9 @@ func c14History(raw json.RawMessage) any {
 				}
 				mutateAll(reflect.ValueOf(s), 0)
 			}
-			if d := diffPath(snaps[len(snaps)-1], e.enc(reflect.ValueOf(recv)), ""); d != "" {
+			if d := diffPath(snaps[ri], e.enc(reflect.ValueOf(recv)), ""); d != "" {
 				add("mutation-leak:"+op.Op+":"+topField(d), fmt.Sprintf("step %d: mutating the visitor's services changed the project at %s", i, d))
-				snaps[len(snaps)-1] = e.enc(reflect.ValueOf(recv))
+				snaps[ri] = e.enc(reflect.ValueOf(recv))
 			}
 			continue
 		}
@@ -765,28 +820,30 @@ func c14History(raw json.RawMessage) any {
 	}
 	out.Nodes = e.next
 	if len(chain) > 1 {
-		// 4. mutate everything reachable from the last result: every earlier project stays what it was
+		// 4. mutate everything reachable from each project of the history in turn — the latest first, the original last —
+		//    and after each: every *other* project is what it was (the mutated one is re-read, it stays in the comparison
+		//    set for the later rounds).  "Mutating either afterwards never changes the other", for every pair.
 		last := len(chain) - 1
-		mutateAll(reflect.ValueOf(chain[last]), 0)
-		for j := 0; j < last; j++ {
-			if d := diffPath(snaps[j], e.enc(reflect.ValueOf(chain[j])), ""); d != "" {
-				add("mutation-leak:"+lastOp[last]+":"+topField(d), fmt.Sprintf("mutating the result of %s changed project #%d of the history at %s", lastOp[last], j, d))
+		for k := last; k >= 0; k-- {
+			for j := 0; j <= last; j++ {
+				snaps[j] = e.enc(reflect.ValueOf(chain[j]))
 			}
-		}
-		// 5. and the other way round: mutate the first project, the derived ones stay what they are
-		for j := 1; j <= last; j++ {
-			snaps[j] = e.enc(reflect.ValueOf(chain[j]))
-		}
-		mutateAll(reflect.ValueOf(chain[0]), 0)
-		for j := 1; j <= last; j++ {
-			if d := diffPath(snaps[j], e.enc(reflect.ValueOf(chain[j])), ""); d != "" {
-				add("mutation-leak:"+lastOp[j]+":"+topField(d), fmt.Sprintf("mutating the original project changed the result of %s (#%d) at %s", lastOp[j], j, d))
+			mutateAll(reflect.ValueOf(chain[k]), 0)
+			for j := 0; j <= last; j++ {
+				if j == k {
+					continue
+				}
+				if d := diffPath(snaps[j], e.enc(reflect.ValueOf(chain[j])), ""); d != "" {
+					// the key names the later of the two (the derivation that made the sharing)
+					who := lastOp[max(j, k)]
+					add("mutation-leak:"+who+":"+topField(d), fmt.Sprintf("mutating project #%d (%s) changed project #%d (%s) of the history at %s", k, lastOp[k], j, lastOp[j], d))
+				}
 			}
 		}
 	}
 	// the most causal kind first (the judge reports the first key): mutation of the receiver, shared memory, leaks, lost fields
 	rank := func(k string) int {
-		for i, pre := range []string{"receiver-mutated:", "alias:", "visitor-alias:", "mutation-leak:", "visitor-frame:", "frame:"} {
+		for i, pre := range []string{"receiver-mutated:", "bystander-mutated:", "alias:", "visitor-alias:", "mutation-leak:", "visitor-frame:", "frame:"} {
 			if strings.HasPrefix(k, pre) {
 				return i
 			}
@@ -1103,6 +1160,10 @@ var c14OpPool = []c14Op{
 	{Op: "ForEachService", Names: []string{"@1"}, Opt: "dependents"},
 	{Op: "ForEachService"},
 	{Op: "MarshalWithSecrets"},
+	{Op: "MarshalApply", Flag: true},
+	{Op: "MarshalApply", Flag: false},
+	{Op: "MarshalPlain"},
+	{Op: "Accessors", Names: []string{"@0", "%0", "ghost"}},
 }
 
 func runC14(ctx *core.Ctx) {
@@ -1195,6 +1256,21 @@ func runC14(ctx *core.Ctx) {
 				}
 				ops[j].Names = nm
 			}
+		}
+		// a branching history now and then: a step derives from an earlier project, not from the latest one
+		branched := false
+		if ctx.Rng.Intn(3) == 0 {
+			for j := 1; j < len(ops); j++ {
+				if ctx.Rng.Intn(2) == 0 {
+					ops[j].Back = 1 + ctx.Rng.Intn(j)
+					branched = true
+				}
+			}
+		}
+		if branched {
+			ctx.Count("history-random-branching")
+		} else {
+			ctx.Count("history-random-chain")
 		}
 		ctx.Count(fmt.Sprintf("history-random-len-%d", n))
 		ctx.Count("history-random-" + pr.Mode)
